@@ -180,6 +180,8 @@ def table_scan(repo):
     names = list(ids)
     if sorted(ids.values()) != list(range(len(ids))):
         problems.append("opcode indexes are not 0..N-1 without gaps (BIN_TO_REPR is indexed by opcode)")
+    if list(ids.values()) != list(range(len(ids))):
+        problems.append("the k-th row of generate_consts! does not carry the literal k: BIN_TO_REPR (opcode -> name, used by the text writer) is positional while the id:: constants use the literal, so writer and reader would disagree on the rows out of order")
     if len(set(names)) != len(names):
         problems.append("duplicate instruction names")
     for n in names:
